@@ -321,8 +321,28 @@ def gen_fresnel(repo, out):
     ev = FEval(bm_path, bm_items, allidx)
     th_set = ev.ev(cl[2][1][1][3], {"theta": R("theta")})
     th_at = ev.ev(lets["theta"], {"crystal_setup": ("STRUCT", "CrystalSetup", {"theta": R("theta")})})
-    if lets["np_prime"] != ("call", ("path", ["derivative_at"]), [("path", ["ne_of_theta"]), ("path", ["theta"])]):
-        raise Untranslatable(bm_path, it.span[0], "walkoff_angle: np_prime is not derivative_at(ne_of_theta, theta)")
+    # np_prime is evaluated symbolically: ne_of_theta is the function variable `f`, derivative_at(ne_of_theta, x) is
+    # derivative_at_gen f x; anything else (e.g. an absolute-step central difference below a floor angle) is translated as written
+    class WalkEval(FEval):
+        def apply_closure(self, fv, args, e):
+            if isinstance(fv, tuple) and fv[0] == "FUNVAR":
+                if len(args) != 1 or not self.is_r(args[0]):
+                    self.fail("ne_of_theta is applied to a non-real", e)
+                return R(f"({fv[1]} {args[0]})")
+            return super().apply_closure(fv, args, e)
+
+        def call(self, e, env):
+            f = e[1]
+            if f[0] == "path" and f[1][-1] == "derivative_at":
+                a = [self.ev(x, env) for x in e[2]]
+                if len(a) != 2 or a[0] != ("FUNVAR", "f") or not self.is_r(a[1]):
+                    self.fail("derivative_at is not applied to (ne_of_theta, <real>)", e)
+                return R(f"(derivative_at_gen f {a[1]})")
+            return super().call(e, env)
+    wev = WalkEval(bm_path, bm_items, allidx, consts={"EPSILON": R("eps64")})
+    np_prime = wev.ev(lets["np_prime"], {"ne_of_theta": ("FUNVAR", "f"), "theta": R("theta0")})
+    if not wev.is_r(np_prime) or "(derivative_at_gen f theta0)" not in np_prime and "(f " not in np_prime:
+        raise Untranslatable(bm_path, it.span[0], "walkoff_angle: np_prime does not differentiate ne_of_theta at theta")
     if lets["np"] != ("unary", "*", ("mcall", ("path", ["self"]), "refractive_index",
                                      [("field", ("path", ["self"]), "frequency"), ("path", ["crystal_setup"])])):
         raise Untranslatable(bm_path, it.span[0], "walkoff_angle: np is not this beam's index in the given setup")
@@ -333,8 +353,10 @@ def gen_fresnel(repo, out):
                 f"Definition walkoff_theta_assigned_gen (theta : R) : R :=\n  {th_set}.\n")
     body.append(f"Definition walkoff_theta_at_gen (theta : R) : R :=\n  {th_at}.\n")
     body.append(f"Definition walkoff_tail_gen (np_prime np : R) : R :=\n  {tailv}.\n")
+    body.append("(* np_prime: f = ne_of_theta, theta0 = the crystal angle *)\n"
+                f"Definition walkoff_np_prime_gen (f : R -> R) (theta0 : R) : R :=\n  {np_prime}.\n")
     body.append("Definition walkoff_gen (n_of_theta : R -> R) (theta : R) : R :=\n"
-                "  walkoff_tail_gen (derivative_at_gen (fun t => n_of_theta (walkoff_theta_assigned_gen t)) (walkoff_theta_at_gen theta))\n"
+                "  walkoff_tail_gen (walkoff_np_prime_gen (fun t => n_of_theta (walkoff_theta_assigned_gen t)) (walkoff_theta_at_gen theta))\n"
                 "                   (n_of_theta theta).\n")
 
     # ---- Beam::refractive_index: index_along(frequency_to_vacuum_wavelength(omega), self.direction(), self.polarization())
